@@ -23,6 +23,7 @@ func main() {
 	repo := flag.String("repo", "/repo", "path to the lal working tree")
 	out := flag.String("out", "/verif/evidence", "evidence directory")
 	tables := flag.String("tables", "/verif/tables", "tables directory")
+	variants := flag.String("variants", "/verif/selftest/variants", "one-hunk variants used by the thorough tier's mutation audit")
 	seed := flag.Int("seed", -1, "recorded in the evidence; no rule makes a random choice")
 	list := flag.Bool("list", false, "list implemented properties")
 	explain := flag.String("explain", "", "print a violations file")
@@ -74,10 +75,10 @@ func main() {
 		fmt.Fprintf(os.Stderr, "UNDECIDED: no rules for property %q\n", *prop)
 		os.Exit(2)
 	}
-	os.Exit(run(*prop, *tier, *repo, *out, *tables, *seed, f))
+	os.Exit(run(*prop, *tier, *repo, *out, *tables, *variants, *seed, f))
 }
 
-func run(prop, tier, repo, out, tables string, seed int, f rules.PropFunc) (code int) {
+func run(prop, tier, repo, out, tables, variants string, seed int, f rules.PropFunc) (code int) {
 	defer func() {
 		if r := recover(); r != nil {
 			if u, ok := r.(model.Undecided); ok {
@@ -97,5 +98,14 @@ func run(prop, tier, repo, out, tables string, seed int, f rules.PropFunc) (code
 	p := model.Load(repo)
 	res.Count("packages_loaded", len(p.Pkgs))
 	f(p, res)
+	if tier == "thorough" {
+		res.Rule("THOROUGH", "the property's rules also hold on the program as built for GOOS=windows and for GOARCH=386 (build-tagged files, other word size)")
+		res.Rule("AUDIT", "mutation audit of the checker: each one-hunk variant kept under selftest/variants for this property is applied to a scratch copy of the tree and must be reported; behaviour-preserving ok_ variants must stay silent (informational: it validates the check, it is not a verdict on the tree)")
+		nViolBefore := res.Violations(t)
+		thoroughConfigs(prop, repo, res)
+		if nViolBefore == 0 {
+			thoroughAudit(prop, repo, variants, res)
+		}
+	}
 	return res.Finish(t, out)
 }
